@@ -393,3 +393,147 @@ def _lossy(frm, to):
 
 def is_lossy_cast(e):
     return isinstance(e, tuple) and e[0] == "cast" and _lossy(e[2], e[3])
+
+
+# ------------------------------------------------------------------ variables
+def local_by_name(body, name):
+    for l, n in body.local_name.items():
+        if n == name:
+            return l
+    return None
+
+
+def var_def_exprs(body, name):
+    """[(site, expr)] for every full definition of the user variable `name`"""
+    l = local_by_name(body, name)
+    if l is None:
+        return []
+    return [(site, body.rec_def(site)) for site in body.defs().get(l, [])]
+
+
+def root_of(e):
+    """innermost root of a field/vfield/try chain"""
+    while isinstance(e, tuple) and e[0] in ("field", "vfield", "try", "mutated", "elem", "index"):
+        e = e[1]
+    return e
+
+
+def path_str(e):
+    """`blk.header.fee_pool`-style rendering of a pure field chain, else None"""
+    root, path = fields_path(e)
+    if root[0] in ("param", "var", "upvar"):
+        base = root[2] if root[0] == "param" else root[1]
+        return ".".join([base] + path)
+    return None
+
+
+def block_of_call(body, pred):
+    return [bi for bi, t in body.calls() if pred(callee_name(t), callee_path(t))]
+
+
+def dominated_by_call(body, bb, pred):
+    """is block bb strictly dominated by a block whose call satisfies pred (and whose normal successor is on the way)"""
+    for bi, t in body.calls():
+        if pred(callee_name(t), callee_path(t)) and bi != bb and body.dominates(bi, bb):
+            return True
+    return False
+
+
+# ------------------------------------------------------------------ arithmetic normal form
+ARITH_CALLS = {
+    "saturating_add": "Add", "wrapping_add": "Add", "checked_add": "Add", "overflowing_add": "Add",
+    "saturating_sub": "Sub", "wrapping_sub": "Sub", "checked_sub": "Sub", "overflowing_sub": "Sub",
+    "saturating_mul": "Mul", "wrapping_mul": "Mul", "checked_mul": "Mul", "overflowing_mul": "Mul",
+    "checked_div": "Div", "wrapping_div": "Div", "saturating_div": "Div",
+}
+BIN_NORM = {"AddWithOverflow": "Add", "SubWithOverflow": "Sub", "MulWithOverflow": "Mul", "AddUnchecked": "Add",
+            "SubUnchecked": "Sub", "MulUnchecked": "Mul", "ShrUnchecked": "Shr", "ShlUnchecked": "Shl"}
+
+
+def arith_nf(e):
+    """normal form for comparing arithmetic shapes: drops casts, newtype (un)wrapping, `.0` of checked ops,
+    maps checked/saturating/wrapping method calls to the plain operator, abs/unsigned_abs to ('abs', x),
+    max/min to ('max'|'min', a, b); commutative operands sorted.  Overflow behaviour is NOT part of the form."""
+    e = unwrap0(e)
+    if not isinstance(e, tuple):
+        return e
+    k = e[0]
+    if k == "cast":
+        return arith_nf(e[1])
+    if k == "var":
+        return ("var", e[1])
+    if k == "bin":
+        op = BIN_NORM.get(e[1], e[1])
+        a, b = arith_nf(e[2]), arith_nf(e[3])
+        if op in mir.COMMUTATIVE and repr(b) < repr(a):
+            a, b = b, a
+        return ("bin", op, a, b)
+    if k == "field" and e[2] in ("0",) :
+        return arith_nf(e[1])
+    if k == "call":
+        name = e[1].split("::")[-1]
+        args = [arith_nf(a) for a in e[2]]
+        if name in ARITH_CALLS and len(args) == 2:
+            op = ARITH_CALLS[name]
+            a, b = args
+            if op in mir.COMMUTATIVE and repr(b) < repr(a):
+                a, b = b, a
+            return ("bin", op, a, b)
+        if name in ("unsigned_abs", "abs", "wrapping_abs") and len(args) == 1:
+            return ("abs", args[0])
+        if name in ("max", "min") and len(args) == 2:
+            a, b = sorted(args, key=repr)
+            return (name, a, b)
+        if name in ("add", "sub", "mul", "div") and len(args) == 2 and "ops::" in e[1]:
+            op = name.capitalize()
+            a, b = args
+            if op in mir.COMMUTATIVE and repr(b) < repr(a):
+                a, b = b, a
+            return ("bin", op, a, b)
+        return ("call", e[1], tuple(args))
+    if k == "phi":
+        return mir.mk_phi([arith_nf(x) for x in e[1]])
+    if k in ("try", "mutated"):
+        return arith_nf(e[1])
+    if k == "const":
+        return ("const", "int", e[2]) if isinstance(e[2], int) else e
+    if k == "field":
+        return ("field", arith_nf(e[1]), e[2])
+    return e
+
+
+def B(op, a, b):
+    if op in mir.COMMUTATIVE and repr(b) < repr(a):
+        a, b = b, a
+    return ("bin", op, a, b)
+
+
+def K(n):
+    return ("const", "int", n)
+
+
+def resolve_phis(body, e, reach):
+    """replace phi nodes (from `let x = if c {a} else {b}`) by the alternatives whose defining block is in `reach`"""
+    if not isinstance(e, tuple):
+        return e
+    if e[0] == "phi":
+        alts = []
+        for alt in e[1]:
+            site = _phi_site(body, alt)
+            if site is None or site in reach:
+                alts.append(resolve_phis(body, alt, reach))
+        return mir.mk_phi(alts) if alts else e
+    return tuple(resolve_phis(body, x, reach) if isinstance(x, tuple) else x for x in e)
+
+
+def _phi_site(body, val):
+    for l, sites in body.defs().items():
+        if len(sites) < 2:
+            continue
+        for s_ in sites:
+            try:
+                if body.rec_def(s_) == val:
+                    return s_[0]
+            except Exception:
+                pass
+    return None
